@@ -25,6 +25,7 @@ import (
 	"github.com/mimoo/disco/libdisco"
 	"golang.org/x/crypto/ssh"
 
+	honeytrapcmd "github.com/honeytrap/honeytrap/cmd/honeytrap"
 	"github.com/honeytrap/honeytrap/config"
 	"github.com/honeytrap/honeytrap/event"
 	"github.com/honeytrap/honeytrap/listener"
@@ -51,9 +52,10 @@ type Job struct {
 	Out      string          `json:"out"`
 	Ready    string          `json:"ready,omitempty"` // touched right before server.New (kill timing)
 	Wiring   *Wiring         `json:"wiring,omitempty"`
-	Spell    string          `json:"spell,omitempty"` // the data directory as handed to WithDataDir (default: DataDir)
-	Cwd      string          `json:"cwd,omitempty"`   // working directory of the start
-	Hold     bool            `json:"hold,omitempty"`  // stay alive (holding the store) after the observation is written
+	RealCmd  bool            `json:"real_cmd,omitempty"` // run the REAL command (cmd/honeytrap New().Run with -c and -d) instead of building the option list here
+	Spell    string          `json:"spell,omitempty"`    // the data directory as handed to WithDataDir / -d (default: DataDir)
+	Cwd      string          `json:"cwd,omitempty"`      // working directory of the start
+	Hold     bool            `json:"hold,omitempty"`     // stay alive (holding the store) after the observation is written
 }
 
 // ItemObs describes one persisted kv item after the start.
@@ -697,20 +699,37 @@ func childMain(jobPath string) {
 	if spell == "" {
 		spell = job.DataDir
 	}
-	optD, err := server.WithDataDir(spell)
-	if err != nil {
-		ob.NewErr = "datadir: " + err.Error()
-		writeObs(job, ob)
-		os.Exit(0)
+	if job.RealCmd {
+		// cmd/honeytrap serve: flags -c / -d, option list and order as the shipped binary has them
+		ended := make(chan error, 1)
+		go func() { ended <- honeytrapcmd.New().Run([]string{"honeytrap", "-c", tp, "-d", spell}) }()
+		go func() {
+			err := <-ended
+			select {
+			case <-theL.started:
+			default:
+				ob.NewErr = fmt.Sprintf("command returned before the listener started: %v", err)
+				dumpFiles(ob, job.DataDir)
+				writeObs(job, ob)
+				os.Exit(0)
+			}
+		}()
+	} else {
+		optD, err := server.WithDataDir(spell)
+		if err != nil {
+			ob.NewErr = "datadir: " + err.Error()
+			writeObs(job, ob)
+			os.Exit(0)
+		}
+		srv, err := server.New(optC, optD, server.WithToken())
+		if err != nil {
+			ob.NewErr = err.Error()
+			dumpFiles(ob, job.DataDir)
+			writeObs(job, ob)
+			os.Exit(0)
+		}
+		go srv.Run(context.Background())
 	}
-	srv, err := server.New(optC, optD, server.WithToken())
-	if err != nil {
-		ob.NewErr = err.Error()
-		dumpFiles(ob, job.DataDir)
-		writeObs(job, ob)
-		os.Exit(0)
-	}
-	go srv.Run(context.Background())
 	select {
 	case <-theL.started:
 		ob.Started = true
